@@ -661,8 +661,139 @@ impl<'r> Gen<'r> {
         if self.rng.chance(3, 5) {
             Program::Stmt(Stmt::Expr(self.expr(ty, depth)))
         } else {
-            Program::Stmt(Stmt::Block(self.value_block(ty, depth)))
+            let b = self.value_block(ty, depth);
+            Program::Stmt(Stmt::Block(self.mixed_constness_variation(ty, b)))
         }
+    }
+
+    /// Mixed constness of the paths of a block binding (round-4 seed C02/7: a constant fast path that looks at the wrong
+    /// block folds the whole binding to a literal).  With probability 1/4 a generated block binding is REPLACED by a block
+    /// whose COMPLETION value (final expression statement or final `return`) is a literal / constant expression while an
+    /// earlier path returns a value read from properties — early return in an `if`, in an `else if` chain, in switch
+    /// clauses, after a `let` — or by the mirror image (constant early returns, dynamic completion), or by an all-constant
+    /// block under a dynamic or a literal condition; for every result type.  None of them may be evaluated as a constant
+    /// (C06: the `eval` field of the exact IR comparison; C01: the value differs by state; C02/C03 through the same IR).
+    /// The MAIN random stream is not consumed: everything comes from a generator forked from a hash of the block that is
+    /// replaced, so every draw of every other program is what it was before.
+    fn mixed_constness_variation(&mut self, ty: Ty, block: Vec<Stmt>) -> Vec<Stmt> {
+        if self.constant_only {
+            return block;
+        }
+        let mut h: u64 = 0xcbf29ce484222325;
+        for b in format!("{:?}", block).bytes() {
+            h = (h ^ b as u64).wrapping_mul(0x100000001b3);
+        }
+        let mut r2 = Rng::fork(h, "mixed-constness", block.len() as u64);
+        if !r2.chance(1, 4) {
+            return block;
+        }
+        let mut g = Gen::new(&mut r2, 0);
+        g.next_local = self.next_local + 200;
+        // a constant expression of the result type (literals, enumerators, object ids, folded operators)
+        fn konst(g: &mut Gen<'_>, ty: Ty) -> Expr {
+            g.constant_only = true;
+            let d = g.rng.below(2);
+            let e = g.expr(ty, d);
+            g.constant_only = false;
+            e
+        }
+        // an expression of the result type that certainly reads a property
+        fn dynamic(g: &mut Gen<'_>, ty: Ty) -> Expr {
+            let p = *g.rng.pick(ty.base_props());
+            let direct = match g.rng.below(3) {
+                0 => mem(id("b"), p),
+                1 => mem(mem(id("a"), "next"), p),
+                _ => tern(mem(id("b"), "c"), mem(id("b"), p), mem(id("a"), p)),
+            };
+            if g.rng.chance(1, 2) {
+                return direct;
+            }
+            let e = g.expr(ty, 1);
+            let text = format!("{e:?}");
+            if text.contains("Member(Ident(\"a\")") || text.contains("Member(Ident(\"b\")") || text.contains("Member(Ident(\"o\")") {
+                e
+            } else {
+                direct
+            }
+        }
+        fn cond(g: &mut Gen<'_>) -> Expr {
+            match g.rng.below(4) {
+                0 => mem(id("b"), "b"),
+                1 => bin("gt", mem(id("b"), "i"), Expr::Int(0, "0".into())),
+                2 => un("not", mem(id("a"), "c")),
+                _ => bin("land", mem(id("b"), "b"), bin("ne", mem(id("a"), "next"), Expr::Null)),
+            }
+        }
+        let ret = |e: Expr| Stmt::Return(Some(e));
+        let mirror = g.rng.chance(1, 2);
+        // `early`: the values of the early returns, `last`: the completion value
+        let (mut early, last): (Box<dyn FnMut(&mut Gen<'_>) -> Expr>, Expr) = if mirror {
+            (Box::new(move |g: &mut Gen<'_>| konst(g, ty)), dynamic(&mut g, ty))
+        } else {
+            (Box::new(move |g: &mut Gen<'_>| dynamic(g, ty)), konst(&mut g, ty))
+        };
+        // the completion: an expression statement (the completion value proper) or a final `return`
+        let completion = if g.rng.chance(2, 3) { Stmt::Expr(last.clone()) } else { ret(last.clone()) };
+        let sw_value = mem(id("b"), "i");
+        let mut out = vec![];
+        match g.rng.below(9) {
+            0 => {
+                out.push(Stmt::If(cond(&mut g), Box::new(ret(early(&mut g))), None));
+                out.push(completion);
+            }
+            1 => {
+                // else-if chain
+                let inner = Stmt::If(cond(&mut g), Box::new(ret(early(&mut g))), None);
+                out.push(Stmt::If(cond(&mut g), Box::new(ret(early(&mut g))), Some(Box::new(inner))));
+                out.push(completion);
+            }
+            2 => {
+                // switch clauses that return
+                let c0 = vec![ret(early(&mut g))];
+                let c1 = vec![ret(early(&mut g))];
+                out.push(Stmt::Switch(sw_value, vec![(Some(Expr::Int(0, "0".into())), c0), (Some(Expr::Int(1, "1".into())), c1)]));
+                out.push(completion);
+            }
+            3 => {
+                // a clause that returns, a default that breaks
+                let c0 = vec![ret(early(&mut g))];
+                out.push(Stmt::Switch(sw_value, vec![(Some(Expr::Int(2, "2".into())), c0), (None, vec![Stmt::Break(false)])]));
+                out.push(completion);
+            }
+            4 => {
+                // after a let: the early return goes through a variable
+                let name = format!("mc{}", self.next_local);
+                out.push(Stmt::Lexical(g.rng.chance(1, 2), vec![Decl { name: name.clone(), ty: None, value: Some(early(&mut g)) }]));
+                out.push(Stmt::If(cond(&mut g), Box::new(ret(id(&name))), None));
+                out.push(completion);
+            }
+            5 => {
+                // the completion value inside the else branch (a block), the early value in the then branch
+                let a = Stmt::Block(vec![ret(early(&mut g))]);
+                let b = Stmt::Block(vec![completion]);
+                out.push(Stmt::If(cond(&mut g), Box::new(a), Some(Box::new(b))));
+            }
+            6 => {
+                // both values through expression statements: the completion value of either branch
+                let a = Stmt::Block(vec![Stmt::Expr(early(&mut g))]);
+                let b = Stmt::Block(vec![Stmt::Expr(last.clone())]);
+                out.push(Stmt::If(cond(&mut g), Box::new(a), Some(Box::new(b))));
+            }
+            7 => {
+                // all paths constant, under a dynamic condition: still not a constant
+                let k1 = konst(&mut g, ty);
+                let k2 = konst(&mut g, ty);
+                out.push(Stmt::If(cond(&mut g), Box::new(ret(k1)), None));
+                out.push(if g.rng.chance(1, 2) { Stmt::Expr(k2) } else { ret(k2) });
+            }
+            _ => {
+                // a dynamic statement first (its value is dropped), then the completion; and a literal condition
+                out.push(Stmt::Expr(dynamic(&mut g, ty)));
+                out.push(Stmt::If(Expr::Bool(g.rng.chance(1, 2)), Box::new(ret(early(&mut g))), None));
+                out.push(completion);
+            }
+        }
+        out
     }
 
     /// effectful statements for callbacks
